@@ -22,7 +22,7 @@ ASSUMPTIONS = [
     "Redis/MongoDB/Zarr are in-process fakes",
 ]
 STRATA = ["clean", "errors", "collide"]
-PER = {"quick": {"clean": 60, "errors": 30, "collide": 15},
+PER = {"quick": {"clean": 300, "errors": 150, "collide": 50},
        "thorough": {"clean": 1500, "errors": 600, "collide": 200}}
 STEPS = {"quick": 30, "thorough": 45}
 
